@@ -226,6 +226,14 @@ def run(tier, res, replay=None):
                     [[3.0 * x for x in co] for co in cell]
                     for cell in hot['power'][idy][comp]]
         pairs.append((f'distant-assembly-power-{gm}', far, 0, hot, 0))
+    # the rows of the power file grouped by component across the assemblies
+    # (all pin rows, then all duct rows, ...) instead of by assembly: what an
+    # assembly receives does not depend on where its rows sit in the file
+    byc = copy.deepcopy(base)
+    byc['csv_rows'] = 'by-component'
+    for idx in (1, 4):
+        pairs.append((f'alone-vs-core-rows-by-component-{idx}', byc, idx,
+                      alone_case(base, idx), 0))
     # a gap-coupled core with two bundle meshes (19 pins at the centre, 7
     # pins around it): the six ring assemblies as one shared type and as six
     # identically worded types of their own - every assembly must come out
